@@ -311,6 +311,7 @@ impl BinArchive {
         }
 
         pointers.sort_by(|a, b| a.0.cmp(&b.0));
+        let pointer_count = pointers.len();
         for (source, destination) in pointers {
             cursor.seek(SeekFrom::Start(source as u64))?;
             cursor.write_u32(destination as u32, self.endian)?;
@@ -334,8 +335,11 @@ impl BinArchive {
         
         text.sort_by(|a, b| a.0.cmp(b.0));
         let mut ptr_data_pairs: IndexMap<usize, Vec<u32>> = IndexMap::new();
-        let text_start =
-            self.data.len() + (self.pointers.len() + self.text.len() + raw_labels.len()) * 4;
+        // The text section follows the data (with the c-string pool appended to it), the pointer
+        // table (internal and c-string pointers plus one entry per string cell) and the label table.
+        let text_start = self.data.len()
+            + raw_cstrings.len()
+            + (pointer_count + self.text.len() + raw_labels.len()) * 4;
         for (address, string) in text {
             let offset = add_text(&mut raw_text, &mut raw_text_offsets, string)?;
             let text_address = text_start + offset;
